@@ -31,6 +31,7 @@ R_none == {}
 R_q4   == {<<S(97)>>, <<S(97), S(97)>>, <<S(97), S(98)>>, <<S(98), S(97)>>}     \* quick tier: 4 records incl. a short one
 
 Agg(f, e) == <<"agg", f, e>>
+P(e) == <<"poison", e, <<112>>>>                \* raises iff the value is "p"
 
 \* ---------------------------------------------------------------- C01: select / where
 WhereSet == {TRUEx, <<"eq", Fa(1), L(97)>>, <<"nrodd">>, Fa(2)}      \* Fa(2): truthiness of a bare field (None / "" are falsy)
@@ -99,6 +100,29 @@ Q_C07 == {[BaseQ EXCEPT !.items = its, !.distinct = di, !.hastop = ht, !.top = 1
 Q_C07join == {[BaseQ EXCEPT !.items = its, !.distinct = di, !.join = "left", !.jkeys = << <<1, 1>> >>] :
                 its \in SeqsBetween({E(Fa(1)), E(Fb(1)), E(Fb(3)), <<"bstar">>, <<"star">>, <<"as", E(Fb(2)), "bb">>}, 1, 2), di \in {"none", "count"}}
 
+\* ---------------------------------------------------------------- C13: type-agnostic queries over string cells, every front-end
+Q_C13 == {[BaseQ EXCEPT !.items = <<E(Fa(1)), E(Fa(2))>>],
+          [BaseQ EXCEPT !.items = <<E(Fa(2)), E(L(120)), E(<<"cat", Fa(1), Fa(2)>>)>>, !.where = <<"eq", Fa(1), L(97)>>],
+          [BaseQ EXCEPT !.items = << <<"star">> >>, !.where = <<"ne", Fa(2), L(98)>>],
+          [BaseQ EXCEPT !.items = <<E(NRx), <<"astar">> >>],
+          [BaseQ EXCEPT !.items = <<E(Fa(1)), E(NFx)>>, !.order = <<Fa(2), Fa(1)>>, !.desc = TRUE],
+          [BaseQ EXCEPT !.items = <<E(Fa(2))>>, !.distinct = "uniq", !.order = <<Fa(2)>>],
+          [BaseQ EXCEPT !.items = <<E(Fa(1))>>, !.distinct = "count"],
+          [BaseQ EXCEPT !.items = <<E(Fa(1)), E(Fa(2))>>, !.hastop = TRUE, !.top = 1],
+          [BaseQ EXCEPT !.items = <<E(Fa(1)), <<"as", E(<<"cat", Fa(2), L(122)>>), "zz">> >>],
+          [BaseQ EXCEPT !.items = <<E(Fa(1)), E(Fa(3))>>],
+          [BaseQ EXCEPT !.items = <<Agg("COUNT", <<"int", 1>>), E(Fa(1))>>, !.hasgroup = TRUE, !.group = <<Fa(1)>>],
+          [BaseQ EXCEPT !.hasexc = TRUE, !.exc = <<1>>],
+          [BaseQ EXCEPT !.kind = "update", !.assign = << <<1, Fa(2)>>, <<2, Fa(1)>> >>, !.where = <<"nrodd">>],
+          [BaseQ EXCEPT !.kind = "update", !.assign = << <<2, <<"cat", Fa(1), L(120)>> >> >>],
+          [BaseQ EXCEPT !.items = <<E(P(Fa(1)))>>],
+          [BaseQ EXCEPT !.items = <<E(Fa(1))>>, !.order = <<Fa(1)>>, !.kind = "update", !.assign = << <<1, L(120)>> >>],
+          [BaseQ EXCEPT !.items = <<E(Fa(1))>>, !.where = <<"eq", Fa(1), L(97)>>, !.mistake = "where_assign"]}
+Q_C13join == {[BaseQ EXCEPT !.items = <<E(Fa(1)), E(Fb(2))>>, !.join = j, !.jkeys = << <<1, 1>> >>] : j \in {"inner", "left", "strict"}}
+             \cup {[BaseQ EXCEPT !.items = << <<"star">> >>, !.join = "inner", !.jkeys = << <<2, 1>> >>, !.order = <<Fb(2)>>],
+                   [BaseQ EXCEPT !.kind = "update", !.assign = << <<2, Fb(2)>> >>, !.join = "left", !.jkeys = << <<1, 1>> >>]}
+R_2x2p == [1..2 -> {S(97), S(98), S(112)}]     \* rectangular, with the poison value
+
 \* ---------------------------------------------------------------- C15: every break point x query shapes
 Q_C15 == {[BaseQ EXCEPT !.items = <<E(Fa(1)), E(NRx)>>],
           [BaseQ EXCEPT !.items = <<E(Fa(1)), E(NRx)>>, !.order = <<Fa(1)>>],
@@ -111,7 +135,6 @@ Q_C15 == {[BaseQ EXCEPT !.items = <<E(Fa(1)), E(NRx)>>],
           [BaseQ EXCEPT !.items = << <<"agg", "COUNT", <<"int", 1>> >>, E(Fa(1)) >>, !.hasgroup = TRUE, !.group = <<Fa(1)>>]}
 
 \* ---------------------------------------------------------------- C14: poisoned expressions, first offending record
-P(e) == <<"poison", e, <<112>>>>                \* raises iff the value is "p"
 V2P  == {S(97), S(112)}
 R_poison == [1..2 -> V2P]
 Q_C14 == {[BaseQ EXCEPT !.items = <<E(P(Fa(1))), E(NRx)>>],
